@@ -122,6 +122,20 @@ func (w *verifWorld) checkC03() {
 		capSharedBelow = verifAnd(capSharedBelow, verifImplies(below, ok))
 		capReserved = verifAnd(capReserved, reserved <= 1000*fs.ReservedCPUs().Size())
 	}
+	// kernel-isolated CPUs stay in the isolated sets: never sharable, never in
+	// the cpuset of a grant's shared part
+	isoOK := true
+	for _, pool := range p.pools {
+		fs := pool.FreeSupply()
+		isoOK = verifAnd(isoOK, verifAnd(fs.SharableCPUs().Intersection(p.isolated).IsEmpty(), fs.IsolatedCPUs().IsSubsetOf(p.isolated)))
+		isoOK = verifAnd(isoOK, fs.IsolatedCPUs().Intersection(fs.SharableCPUs()).IsEmpty())
+	}
+	for _, c := range w.ctrs {
+		if g := w.grantOf(c); g != nil {
+			isoOK = verifAnd(isoOK, g.SharedCPUs().Intersection(p.isolated).IsEmpty())
+		}
+	}
+	verifAssert("C03.isolated-cpus-never-shared", isoOK)
 	verifAssert("C03.cap.shared", capShared)
 	verifAssert("C03.cap.shared.below-slicing-pool", capSharedBelow)
 	verifAssert("C03.cap.reserved", capReserved)
@@ -172,6 +186,9 @@ func (w *verifWorld) checkEligibility(c *verifContainer) {
 	}
 	verifAssert("C03.cpu-shares", verifAnd(c.sharesSet, c.shares == int64(cache.MilliCPUToShares(int64(portion)))))
 	if wantExcl > 0 {
+		if !g.exclusive.Intersection(w.p.isolated).IsEmpty() {
+			verifCover("isolated-cpus-granted")
+		}
 		iso := g.exclusive.Intersection(w.p.isolated)
 		verifAssert("C03.isolated-all-or-none", verifOr(iso.IsEmpty(), iso.Equals(g.exclusive)))
 	}
@@ -212,7 +229,19 @@ func verifHistory(check func(w *verifWorld), onAllocated func(w *verifWorld, c *
 	machine := verifParam("machine", 0)
 	_, _, ncpu := verifMachine(machine)
 	allowed, reserved, isolated := verifSymbolicConstraints(ncpu, verifParam("constraints", 1))
-	w := verifNewPolicy(machine, allowed, reserved, isolated, verifDefaultConfig())
+	cfg := verifDefaultConfig()
+	if verifParam("constraints", 1) == 3 && verifParam("preferIsolatedChoice", 1) != 0 {
+		// preferIsolatedCPUs: not configured (implicit false), true or false
+		switch verifChoice("preferIsolated", 3) {
+		case 1:
+			v := true
+			cfg.PreferIsolated = &v
+		case 2:
+			v := false
+			cfg.PreferIsolated = &v
+		}
+	}
+	w := verifNewPolicy(machine, allowed, reserved, isolated, cfg)
 	verifCover("policy-built")
 	check(w)
 	ops := verifParam("ops", 2)
